@@ -188,6 +188,19 @@ def getattr(I, st, v, name):
                 yield st, None
             yield st, bi("object.__init__", _obj_init)
             return
+        if m is None and name == "__new__":
+            # Class.__new__(C) of a class that defines none: object.__new__ - a blank instance of C, no __init__ run
+            if any(isinstance(c, BuiltinClass) and c.name != "object" for c in I.mro(v)):
+                raise Unsupported("__new__ inherited from a builtin base of %s" % v.name)
+
+            def _obj_new(I, st, a, k):
+                if len(a) != 1 or k or not isinstance(a[0], ClassVal) or not I.is_subclass(a[0], v):
+                    raise Unsupported("object.__new__ with these arguments")
+                if any(isinstance(c, BuiltinClass) and c.name != "object" for c in I.mro(a[0])) or I.class_lookup(a[0], "__new__")[0] is not None:
+                    raise Unsupported("object.__new__ of a class with a builtin base / its own __new__")
+                yield st, st.alloc(ObjE(a[0], {}))
+            yield st, bi("object.__new__", _obj_new)
+            return
         if m is None:
             yield st, exc("AttributeError", "type object '%s' has no attribute '%s'" % (v.name, name))
             return
@@ -2526,11 +2539,16 @@ def make_ext_modules(I):
         def ident(v):
             return 1000000 + v.id
 
+        class _Raised(Exception):
+            """a copy-protocol method raised on its only path: the exception leaves deepcopy() as in Python"""
+
         def call1(fn, args):
             outs = list(I.call(fn, args, {}, S[0]))
-            if len(outs) != 1 or isinstance(outs[0][1], Exc):
-                raise Unsupported("copy protocol method forks or raises")
+            if len(outs) != 1:
+                raise Unsupported("copy protocol method forks")
             S[0] = outs[0][0]
+            if isinstance(outs[0][1], Exc):
+                raise _Raised(outs[0][1])
             return outs[0][1]
 
         def has_ref(x):
@@ -2614,7 +2632,10 @@ def make_ext_modules(I):
                 return BoundMethod(v.func, dc(v.self_val))  # types.MethodType: same function bound to the copy of its object
             return v
 
-        r = dc(a[0])
+        try:
+            r = dc(a[0])
+        except _Raised as e:
+            r = e.args[0]
         yield S[0], r
 
     E["copy"] = {"copy": bi("copy.copy", cp_copy), "deepcopy": bi("copy.deepcopy", cp_deepcopy)}
@@ -2704,6 +2725,22 @@ def make_ext_modules(I):
 
     E["struct"] = bytesmodel.make_struct(I)
     E["io"] = {"DEFAULT_BUFFER_SIZE": 8192}
+    def rnd_randint(I, st, a, k):
+        # random.randint(lo, hi): ANY integer of the closed range (a fresh unconstrained Int with lo <= r <= hi on the path
+        # condition), so a discharged obligation holds for every outcome of the generator
+        if k or len(a) != 2 or any(isinstance(x, bool) or not (isinstance(x, int) or (is_z3(x) and z3.is_int(x))) for x in a):
+            raise Unsupported("random.randint arguments")
+        lo, hi = a
+        if not (isinstance(lo, int) and isinstance(hi, int)):
+            raise Unsupported("random.randint with symbolic bounds")
+        if lo > hi:
+            yield st, exc("ValueError", "empty range for randrange() (%d, %d, %d)" % (lo, hi + 1, hi + 1 - lo))
+            return
+        r = I.fresh("int", "randint")
+        st.pc.append(z3.And(r >= lo, r <= hi))
+        yield st, r
+
+    E["random"] = {"randint": bi("random.randint", rnd_randint)}
     E["sys"] = {"maxsize": 2**63 - 1}  # 64-bit CPython (the native interpreter of this framework); nothing else of sys is modelled
     E["numpy"] = npmodel.make_module(I)
     E["numpy.linalg"] = npmodel.make_linalg(I)
